@@ -184,6 +184,8 @@ func runC16(p params) error {
 	if err := c16ConnGen(out, p, r); err != nil {
 		return err
 	}
+	// configurations used through Config.Clone carry the fields this property depends on
+	cloneCases(out, []string{"dtlcp"}, map[string][]string{"dtlcp": {"ReplayWindow"}})
 	return out.Finish()
 }
 
